@@ -601,66 +601,32 @@ def replay_rhocut(version, mode):
 
 def unit_generator_spin(version, level):
     """LCAONLDFGenerator keeps one cache per spin channel: evaluating the features of the other channel in between must not change the potential
-    of this one (frame condition on the per-spin cache), and the two labels are interchangeable."""
+    of this one (frame condition on the per-spin cache), and the two labels are interchangeable.  The generator runs its real methods, including the
+    convolution methods with their shared work buffers (contracts/genharness.py)."""
     def run(ctx):
-        from pyvc.interp import ClassV
+        from contracts import genharness as GH
         GMOD = "ciderpress.dft.lcao_nldf_generator"
         it = ctx.interp
         hyps = []
-        st = make_settings(it, version, level, "one", hyps)
         RC = tm.var("rhocut")
         hyps.append(tm.mk_lt(tm.ZERO, RC))
-        nalpha = 2
-        plan = make_plan(it, st, 2, nalpha=nalpha, hyps=hyps, rhocut=RC)
-        gm = it.load_module(GMOD)
-        nvi = it.getattr(plan, "num_vi_ints")
-        nrow = (0 if version == "i" else nalpha) + nvi
+        h = GH.build(it, version, level, 2, hyps, RC)
+        ctx.assume(GH.ASSUMPTION + "; the coefficient routine by its contract, including that a result written into a caller-supplied buffer aliases that buffer")
         nrho = 5 if level == "MGGA" else 4
-        fq = [GMOD + ":LCAONLDFGenerator.__init__", GMOD + ":LCAONLDFGenerator.get_features", GMOD + ":LCAONLDFGenerator.get_potential"]
+        fq = [GMOD + ":LCAONLDFGenerator." + n for n in ("__init__", "get_features", "get_potential", "_perform_fwd_convolution", "_perform_bwd_convolution")]
         tag = "generator[%s,%s]" % (version, level)
-        mk = lambda name, **f: (lambda o: (o.fields.update(f), o)[1])(Obj(ClassV(name, [], gm)))
-        W = sym_array("w", (NS,))
-        gi = mk("_Indexer", ngrids=NS, idx_map=np.array([1, 0]), all_weights=W, padding=0)
-        gi.fields["empty_rlmq"] = Builtin("empty_rlmq", lambda nalpha=1, nspin=None: np.full((1, 1, nalpha), tm.ZERO, dtype=object))
-        gi.fields["empty_gq"] = Builtin("empty_gq", lambda nalpha=1, nspin=None: np.full((NS, nalpha) if nspin is None else (nspin, NS, nalpha), tm.ZERO, dtype=object))
-        ccl = mk("_CCL", atco_inp=mk("_A", nao=1), atco_out=mk("_A", nao=1), num_out=nrow)
-        A = sym_array("A", (NS, nrow, NS, nalpha))
-
-        def fwd(theta_gq, grad_mode=False):
-            out = np.empty((NS, nrow), dtype=object)
-            for g2 in range(NS):
-                for j in range(nrow):
-                    out[g2, j] = tm.mk_add(*[A[g2, j, g, q] * tm.lift(theta_gq[g, q]) for g in range(NS) for q in range(nalpha)])
-            return out
-
-        def bwd(vf_gq):
-            out = np.empty((NS, nalpha), dtype=object)
-            for g in range(NS):
-                for q in range(nalpha):
-                    out[g, q] = tm.mk_add(*[A[g2, j, g, q] * tm.lift(vf_gq[g2, j]) for g2 in range(NS) for j in range(nrow)])
-            return out
-        ctx.assume("convolution chain of LCAONLDFGenerator replaced by an abstract linear operator and its transpose (C05); the coefficient routine by its contract, "
-                   "including that a result written into a caller-supplied buffer aliases that buffer")
         ra, rb = sym_array("ra", (nrho, NS)), sym_array("rb", (nrho, NS))
         H = list(hyps) + [tm.mk_lt(RC, x) for x in list(ra[0]) + list(rb[0])] + ([tm.mk_le(tm.ZERO, x) for x in list(ra[4]) + list(rb[4])] if level == "MGGA" else [])
         it.hyps = list(H)
 
-        def fresh_gen():
-            gen = it.call(gm.ns["LCAONLDFGenerator"], [plan, ccl, mk("_Interp", num_out=nrow), gi], {})
-            gen.fields["_perform_fwd_convolution"] = Builtin("abs.fwd_conv", fwd)
-            gen.fields["_perform_bwd_convolution"] = Builtin("abs.bwd_conv", bwd)
-            return gen
-
         def run_seq(seq):
-            """seq: list of ('f', rho, spin) / ('p', v, spin); returns the value of the last step, on the single non-raising path."""
             def thunk():
-                gen = fresh_gen()
+                gen = h["fresh_gen"]()
                 out = None
                 for kind, arr, spin in seq:
                     out = it.call_method(gen, "get_features" if kind == "f" else "get_potential", [arr.copy()], {"spin": spin})
                 return out
-            ps = [p for p in all_paths(it, thunk)]
-            return ps
+            return [p for p in all_paths(it, thunk)]
         try:
             base = run_seq([("f", ra, 0)])
         except (Exception,) as e:
@@ -683,11 +649,17 @@ def unit_generator_spin(version, level):
         ctx.holds("%s potentials return" % tag, all(x is not None for x in (v_alone, v_inter, v_swap, v_inter2)), "", fq)
         if any(x is None for x in (v_alone, v_inter, v_swap, v_inter2)):
             return
+
+        def cmp(name, Hc, a, b):
+            if tm.lift(a) is tm.lift(b):
+                ctx.holds(name, True, "", fq)
+            else:
+                ctx.equal(name, Hc, a, b, fq, replay=replay_generator_spin())
         for c in range(nrho):
             for g in range(NS):
-                ctx.equal("%s potential of spin 0 is unchanged by a feature evaluation for spin 1 in between [%d,%d]" % (tag, c, g), H + pc0 + pc1, v_inter[c, g], v_alone[c, g], fq, replay=replay_generator_spin())
-                ctx.equal("%s ... also when spin 1 was evaluated before and after [%d,%d]" % (tag, c, g), H + pc0 + pc3, v_inter2[c, g], v_alone[c, g], fq, replay=replay_generator_spin())
-                ctx.equal("%s the spin labels are interchangeable (same density under the other label gives the same potential) [%d,%d]" % (tag, c, g), H + pc0 + pc2, v_swap[c, g], v_alone[c, g], fq, replay=replay_generator_spin())
+                cmp("%s potential of spin 0 is unchanged by a feature evaluation for spin 1 in between [%d,%d]" % (tag, c, g), H + pc0 + pc1, v_inter[c, g], v_alone[c, g])
+                cmp("%s ... also when spin 1 was evaluated before and after [%d,%d]" % (tag, c, g), H + pc0 + pc3, v_inter2[c, g], v_alone[c, g])
+                cmp("%s the spin labels are interchangeable (same density under the other label gives the same potential) [%d,%d]" % (tag, c, g), H + pc0 + pc2, v_swap[c, g], v_alone[c, g])
         ctx.canary("%s canary (the potential depends on the density of its own channel)" % tag, H + pc0, v_alone[0, 0], tm.substitute(tm.lift(v_alone[0, 0]), {ra[0, 0]: rb[0, 0]}))
     return run
 
